@@ -11,6 +11,8 @@ Programs: constants next to input-dependent values, IFs with decidable (`.true.`
       negative step), constant array elements, unused locals (scalar / array / real), helper procedures and a
       function with unused dummies (first / middle / last, array, passed on to another unused dummy).
 """
+import os
+
 from .. import lib_fm as F
 from .. import lib_fm_loops as L
 
@@ -30,7 +32,10 @@ def run(ctx):
         cases = [(c['prog'], c['inputs'])]
     else:
         cases = []
+        only = [f for f in os.environ.get('VERIF_FAMILIES', '').split(',') if f]    # development aid
         for fam, (q, t) in PLAN.items():
+            if only and fam not in only:
+                continue
             for _ in range(q if ctx.quick else t):
                 cases.append(L.gen_c32(ctx.rng, fam))
     with L.checked_builds():
